@@ -7,5 +7,7 @@ Lemma shape_facts :
   servehttp_lock_then_defer_unlock = true /\ servehttp_state_before_lock = [] /\
   servehttp_unlock_only_deferred = true /\ servehttp_no_go_stmt = true /\
   interpreter_lock_used_outside_servehttp = [] /\
-  linter_error_locks_first = true /\ linter_errors_appended_outside_error = [].
+  linter_error_locks_first = true /\ linter_errors_appended_outside_error = [] /\
+  customlint_goroutines_call_error = false /\
+  globals_written_after_init = ["interpreter/variable:injectedVariable@Inject"%string].
 Proof. repeat split; reflexivity. Qed.
